@@ -159,6 +159,10 @@ fn c10_arena_get_any_key() {
     a.insert(named(3, "x")); // duplicate: ignored
     assert!(a.len() == 3);
     let key: u32 = kani::any();
+    // The stub table has 16 entries, the real one exactly 10^7. For keys in [16, 10^7) the two differ
+    // (a correct implementation may rely on `ids.len() == 10^7`), so those keys are outside the claim;
+    // keys >= 10^7 must be answered with None by any implementation.
+    kani::assume(key < 16 || key >= 10_000_000);
     let k = HpoTermId::from_u32(key);
     let inserted = key == 0 || key == 3 || key == 9;
     match a.get(k) {
@@ -172,7 +176,7 @@ fn c10_arena_get_any_key() {
     }
     assert!(a.get_mut(k).is_some() == inserted, "get_mut agrees with get");
     kani::cover!(key == 0, "id 0 looked up");
-    kani::cover!(key >= 16 && key < 10_000_000, "key beyond the stub table, inside the HPO id space");
+    kani::cover!(key == 10_000_000, "first key beyond the id space");
     kani::cover!(key == u32::MAX, "u32::MAX looked up");
     kani::cover!(key == 4, "absent key inside the table");
 }
@@ -214,6 +218,7 @@ fn c10_arena_iteration() {
 fn c10_arena_empty_any_key() {
     let mut a = small_arena(16);
     let key: u32 = kani::any();
+    kani::assume(key < 16 || key >= 10_000_000);
     assert!(a.get(HpoTermId::from_u32(key)).is_none());
     assert!(a.get_mut(HpoTermId::from_u32(key)).is_none());
     assert!(a.len() == 0);
